@@ -568,7 +568,7 @@ def adjust_slice(sl, n):
 def _norm_index(index, ndim):
     if not isinstance(index, tuple):
         index = (index,)
-    index = list(index)
+    index = [i.arr if getattr(i, "_pyvc_series", False) else i for i in index]      # a pandas column used as an index: its values
     n_used = sum(1 for i in index if i is not None and i is not Ellipsis and not _is_boolmask_nd(i))
     n_used += sum(i.ndim for i in index if _is_boolmask_nd(i))
     if any(i is Ellipsis for i in index):
@@ -612,6 +612,8 @@ def _scalar_index_term(i):
 
 def getitem(a, index):
     a = as_sarr(a)
+    if getattr(index, "_pyvc_series", False):
+        index = index.arr
     # full-shape boolean mask -> 1-d result
     if isinstance(index, (SArr, np.ndarray)) and getattr(index, "dtype", None) is not None and index.dtype.kind == "b" and index.ndim == a.ndim and a.ndim > 1:
         if a.ndim != 2:
